@@ -27,6 +27,21 @@ def run(ctx):
     ctx.cov.update(cases=s['cases'], corpus_cases=s['corpus_cases'], reads_checked=s['reads_checked'], crashes=s['crashes'],
                    cases_with_concurrent_writers=s['cases_with_concurrent_writers'], op_histogram=s['op_histogram'])
     monitor_failures(ctx, s['monitor_failures'], findings, 'h_atomic monitor', to_replay)
+    # search with real threads for a literal violation (partial / mixed lookup): 3 writers + 4 readers under the DiskCache locking discipline.
+    # Always run briefly; run longer when the correspondence is broken (that is when a concrete failing input is wanted).
+    broken_corr = any('correspondence atomic' in b for b in ctx.broken)
+    ms = 1500 if ctx.quick() else 20000
+    if broken_corr: ms *= 4
+    rc, out, dt = sh([harness_bin('h_atomic'), 'stress', str(ms)], timeout=600)
+    try: st = json.loads(out.strip().splitlines()[-1])
+    except Exception: st = None
+    if st is None: ctx.broken.append('h_atomic stress crashed: ' + out[-200:])
+    else:
+        ctx.cov['threaded_stress'] = {'millis': ms, 'lookups_checked': st['reads'], 'violations': st['violations']}
+        ctx.evaluations += st['reads']
+        if st['violations']:
+            monitor_failures(ctx, [{'kind': 'partial_or_mixed_lookup_under_threads', 'detail': st['first'], 'ops': ['h_atomic stress %d   (3 writer threads, 4 reader threads, 2 keys; lock{prepare_add}; write; lock{commit} / lock{get_file}; read)' % ms, st['first']]}],
+                             findings, 'threaded stress search', lambda fl: ('search-' + fl['kind'], ['found by the threaded search of harness/src/bin/h_atomic.rs (non-deterministic schedule; re-run `h_atomic stress <ms>`)', 'observed: ' + fl['detail']], '\n'.join(fl['ops'])))
     ctx.assumptions += ['every DiskCache path holds the cache mutex around each LruDiskCache call and writes/reads bodies outside it (read from src/cache/disk.rs; stepping one call at a time is then faithful)',
                         'process crash only (no power loss: un-synced data is not modelled)', 'POSIX rename/unlink semantics']
     ctx.notes.append('not modelled: real thread scheduling inside tokio; power-loss durability')
